@@ -93,7 +93,14 @@ PseudoOps ==    \* asmallg.c Pseudos[] + CodeGlobalPseudo specials + errmsg/sect
 DataOps ==      \* data pseudo ops of the CPU families (intpseudo.c motpseudo.c tipseudo.c fourpseudo.c natpseudo.c and the
                 \* private ones in code*.c); the concrete mnemonics a CPU accepts are discovered by the harness
   { R("DATA", "da", 1, AMAX, "none"),      \* DB DW DC.x BYT FCB WORD LONG STRING FLOAT DATA ...
-    R("DRES", "da", 1, 1, "none") }        \* DS RMB RES BSS DFS ZERO ...
+    R("DRES", "da", 1, 1, "none"),         \* DS RMB RES BSS DFS ZERO BLKB SPACE ...      <count>
+    R("DFILL", "da", 2, 2, "none"),        \* FB FW DCB DS n,v ...                       <count>,<value>
+    R("DDUP", "da", 1, AMAX, "none"),      \* Intel data statement with  <count> DUP (<value>)  as an argument
+    R("DREP", "da", 1, AMAX, "none") }     \* Motorola data statement with  [<count>]<value>   as an argument
+\* statements whose FIRST argument is a size / count / repetition factor that sizes the code buffer
+CountOps == {"DRES", "DFILL", "DDUP", "DREP", "ALIGN"}
+\* listing layout and listing content statements (only observable with the listing switched on, -L)
+ListOps == {"PAGE", "NEWPAGE", "TITLE", "PRTINIT", "PRTEXIT", "LISTING", "MACEXP", "MACEXP_DFT", "MACEXP_OVR"}
 
 FuncOps ==      \* function.c Functions[] + the built-ins of asmpars.c; argument-count bounds from the table
   { R("SUBSTR", "fn", 3, 3, "none"), R("STRSTR", "fn", 2, 2, "none"), R("CHARFROMSTR", "fn", 2, 2, "none"),
@@ -128,9 +135,13 @@ OpNames == {o.n : o \in OpTab}
 OpF == [n \in OpNames |-> CHOOSE o \in OpTab : o.n = n]
 Op(n) == OpF[n]
 
+\* sizes / counts around the powers of two at which a code buffer of 256 (MaxCodeLen_Ini), 512, 1024 bytes overflows
+\* for 1-, 2- and 4-byte elements, the page layout limits, and the 16-bit limits ("cN" = the number N)
+CountClasses == {"c4", "c5", "c6", "c127", "c128", "c129", "c255", "c256", "c257", "c511", "c512", "c513", "c1000",
+                 "c5000", "c32767", "c65536"}
 (* argument classes: "ok" is the benign form; the others are the erroneous half of the value space *)
 Classes == {"ok", "empty", "0", "1", "m1", "h31", "h32", "h63", "m63", "str", "lstr", "chr", "float",
-            "hfloat", "undef", "fwd", "unterm", "paren"}
+            "hfloat", "undef", "fwd", "unterm", "paren"} \cup CountClasses
 ZeroLike  == {"0", "m1", "m63"}                 \* count <= 0
 HugeLike  == {"h31", "h32", "h63"}              \* count >= 2^31
 NonNum    == {"empty", "str", "lstr", "float", "hfloat", "undef", "fwd", "unterm", "paren"}
